@@ -1,2 +1,105 @@
-(** C15 — property theorems only (placeholder while the proofs are written). *)
-From LP Require Import Num C15_Model.
+(** C15 — property theorems only.  Each is closed by [exact] of a lemma proved in C15_Proofs.v.
+    Model: coq/C15_Model.v, the term that is extracted and run against libphysica
+    (Householder_Matrix, QR_Decomposition, Eigenvalues, Find_Eigenvector_Rayleigh, Eigensystem).
+    [rsum f n] = f 0 + ... + f (n-1); [dlt] = Kronecker delta; [ment M i j] = entry (i,j) of a list-of-rows matrix.
+    All statements are over the reals, for every dimension. *)
+From Coq Require Import Reals List.
+From LP Require Import Num NumR C15_Model C15_Proofs.
+Import ListNotations.
+Local Open Scope R_scope.
+
+(** ** "the Householder construction" — for a matrix whose first column x is not zero:
+    the vector x - alpha e1 that the code normalises is not zero (its squared length is at least 2|x|^2),
+    alpha^2 = |x|^2 with the sign chosen against x_0 (no cancellation) *)
+Theorem C15_householder_well_defined (m : list (list R)) :
+  (exists k, (k < length (mcol ROps m 0))%nat /\ nth k (mcol ROps m 0) 0 <> 0) ->
+  let x := mcol ROps m 0 in
+  let w := map (fun i => nth i x 0 - dlt i 0 * householder_alpha ROps x) (seq 0 (length x)) in
+  0 < vdot ROps w w /\ 2 * vdot ROps x x <= vdot ROps w w.
+Proof. exact (hm_u_well_defined m). Qed.
+Print Assumptions C15_householder_well_defined.
+
+Theorem C15_householder_alpha (m : list (list R)) :
+  (exists k, (k < length (mcol ROps m 0))%nat /\ nth k (mcol ROps m 0) 0 <> 0) ->
+  let x := mcol ROps m 0 in
+  householder_alpha ROps x * householder_alpha ROps x = rsum (fun k => nth k x 0 * nth k x 0) (length x) /\
+  householder_alpha ROps x * nth 0 x 0 <= 0.
+Proof. exact (hm_alpha m). Qed.
+Print Assumptions C15_householder_alpha.
+
+(** H = Householder_Matrix(M) is symmetric, orthogonal (H^T H = 1) and maps the first column to alpha e1
+    ("R upper triangular": the sub-diagonal part of the processed column is zeroed exactly) *)
+Theorem C15_householder_symmetric (m : list (list R)) i j :
+  (i < length (mcol ROps m 0))%nat -> (j < length (mcol ROps m 0))%nat ->
+  ment ROps (householder ROps m) i j = ment ROps (householder ROps m) j i.
+Proof. exact (hm_symmetric m i j). Qed.
+Print Assumptions C15_householder_symmetric.
+
+Theorem C15_householder_orthogonal (m : list (list R)) :
+  (exists k, (k < length (mcol ROps m 0))%nat /\ nth k (mcol ROps m 0) 0 <> 0) ->
+  forall i j, (i < length (mcol ROps m 0))%nat -> (j < length (mcol ROps m 0))%nat ->
+  rsum (fun k => ment ROps (householder ROps m) k i * ment ROps (householder ROps m) k j) (length (mcol ROps m 0)) = dlt i j.
+Proof. exact (hm_orthogonal m). Qed.
+Print Assumptions C15_householder_orthogonal.
+
+Theorem C15_householder_reflects (m : list (list R)) :
+  (exists k, (k < length (mcol ROps m 0))%nat /\ nth k (mcol ROps m 0) 0 <> 0) ->
+  forall i, (i < length (mcol ROps m 0))%nat ->
+  rsum (fun j => ment ROps (householder ROps m) i j * nth j (mcol ROps m 0) 0) (length (mcol ROps m 0))
+  = dlt i 0 * householder_alpha ROps (mcol ROps m 0).
+Proof. exact (hm_reflects m). Qed.
+Print Assumptions C15_householder_reflects.
+
+(** ** "Eigenvalues": one sweep A -> R Q of the QR iteration, on the model's own matrix product, is the similarity
+    Q^T A Q whenever A = Q R with Q^T Q = 1; it keeps the trace, and symmetry *)
+Theorem C15_qr_step_similarity n (A Q Rm : list (list R)) : (0 < n)%nat -> wf n Q -> wf n Rm ->
+  (forall i j, (i < n)%nat -> (j < n)%nat -> ment ROps A i j = rsum (fun k => ment ROps Q i k * ment ROps Rm k j) n) ->
+  (forall i j, (i < n)%nat -> (j < n)%nat -> rsum (fun k => ment ROps Q k i * ment ROps Q k j) n = dlt i j) ->
+  let A' := mmul ROps Rm Q in
+  (forall i j, (i < n)%nat -> (j < n)%nat ->
+     ment ROps A' i j = rsum (fun k => ment ROps Q k i * rsum (fun l => ment ROps A k l * ment ROps Q l j) n) n) /\
+  rsum (fun i => ment ROps A' i i) n = rsum (fun i => ment ROps A i i) n /\
+  ((forall i j, (i < n)%nat -> (j < n)%nat -> ment ROps A i j = ment ROps A j i) ->
+   forall i j, (i < n)%nat -> (j < n)%nat -> ment ROps A' i j = ment ROps A' j i).
+Proof. exact (qr_step_similarity_model n A Q Rm). Qed.
+Print Assumptions C15_qr_step_similarity.
+
+(** ** "Eigensystem / Find_Eigenvector_Rayleigh": the eigenvalue returned with a vector is the Rayleigh quotient
+    b . (M b) of that vector *)
+Theorem C15_rayleigh_quotient_returned (m : list (list R)) ev lam b :
+  find_eigenvector_rayleigh ROps m ev = Ok (lam, b) -> lam = vdot ROps b (mvec ROps m b).
+Proof. exact (rayleigh_quotient_returned m ev lam b). Qed.
+Print Assumptions C15_rayleigh_quotient_returned.
+
+(** "unit eigenvectors": Normalize() of a non-zero vector is a unit vector, and every iterate the inverse iteration can
+    return (after any number of steps, whichever exit is taken, with or without the sign flip) is a unit vector,
+    provided the inverse of the shifted matrix maps no unit vector to zero *)
+Theorem C15_normalize_unit (w : list R) : 0 < vdot ROps w w -> vdot ROps (vnormalize ROps w) (vnormalize ROps w) = 1.
+Proof. exact (vnormalize_unit w). Qed.
+Print Assumptions C15_normalize_unit.
+
+Theorem C15_inverse_iteration_unit (minv : list (list R)) :
+  (forall b, vdot ROps b b = 1 -> 0 < vdot ROps (mvec ROps minv b) (mvec ROps minv b)) ->
+  forall k b, vdot ROps b b = 1 -> vdot ROps (inverse_iteration ROps k minv b) (inverse_iteration ROps k minv b) = 1.
+Proof. exact (inverse_iteration_unit minv). Qed.
+Print Assumptions C15_inverse_iteration_unit.
+
+(** the fixed point of the iteration: if M v = lambda v and M_inv inverts M - s 1 with s <> lambda, then
+    M_inv v = v / (lambda - s): an exact eigenvector keeps its direction *)
+Theorem C15_inverse_iteration_eigenvector n (mm minv : nat -> nat -> R) (s lam : R) (v : nat -> R) :
+  (forall i j, (i < n)%nat -> (j < n)%nat -> rsum (fun k => minv i k * (mm k j - s * dlt k j)) n = dlt i j) ->
+  (forall i, (i < n)%nat -> rsum (fun j => mm i j * v j) n = lam * v i) ->
+  lam <> s ->
+  forall i, (i < n)%nat -> rsum (fun j => minv i j * v j) n = v i / (lam - s).
+Proof. exact (inverse_iteration_eigenvector n mm minv s lam v). Qed.
+Print Assumptions C15_inverse_iteration_eigenvector.
+
+(** non-vacuity of the hypotheses above *)
+Theorem C15_hypotheses_satisfiable :
+  (exists k, (k < length (mcol ROps ex_M 0%nat))%nat /\ nth k (mcol ROps ex_M 0%nat) 0 <> 0) /\
+  (let Q := [[0; 1]; [1; 0]] in let Rm := [[2; 3]; [0; 5]] in let A := [[0; 5]; [2; 3]] in
+   wf 2 Q /\ wf 2 Rm /\
+   (forall i j, (i < 2)%nat -> (j < 2)%nat -> ment ROps A i j = rsum (fun k => ment ROps Q i k * ment ROps Rm k j) 2) /\
+   (forall i j, (i < 2)%nat -> (j < 2)%nat -> rsum (fun k => ment ROps Q k i * ment ROps Q k j) 2 = dlt i j)).
+Proof. exact (conj ex_householder_hyp ex_similarity_hyp). Qed.
+Print Assumptions C15_hypotheses_satisfiable.
